@@ -307,7 +307,17 @@ def _build_merged(desc, argmap, name):
             kinds |= k
         for p_ in parts:
             t |= taint_of(p_)
-        return Unk(name, kinds=kinds, taint=t, src=('summary', name))
+        u = Unk(name, kinds=kinds, taint=t, src=('summary', name))
+        # what every alternative is known to be (e.g. each is the argument or a slice of it, encoded with this very
+        # encoding) holds for the join
+        common = None
+        for p_ in parts:
+            fs_ = {f for f in getattr(p_, 'facts', ()) if isinstance(f, tuple) and f[0] in ('encoded-by', 'encoded-in', 'encoded-by-param')} \
+                if isinstance(p_, Unk) else set()
+            common = fs_ if common is None else (common & fs_)
+        for f in common or ():
+            u.facts.add(f)
+        return u
     return _build(desc, argmap, name)
 
 
@@ -327,9 +337,11 @@ def text_utils(P):
     m = P.module('pydiffx.utils.text')
     order = []
     # callees first: order functions by their position in the intra-module call graph
-    fs = list(m.funcs.values())
+    # private helpers of the module are not summarised on their own: they are inlined into the summaries of the public
+    # utilities that call them, which keeps what those know about their locals (e.g. a value taken from a constant table)
+    fs = [f for f in m.funcs.values() if not f.name.startswith('_')]
     from sa.roles import self_calls
-    deps = {f.qualname: {g.qualname for _, g in self_calls(P, f) if g.module is m} for f in fs}
+    deps = {f.qualname: {g.qualname for _, g in self_calls(P, f) if g.module is m and g in fs} for f in fs}
     done = []
     while len(done) < len(fs):
         progress = False
